@@ -177,7 +177,227 @@ def _m_to_dtype(dt):
     return f
 
 
+def _dims(x, d):
+    if not is_conc(d):
+        raise Unsupported('symbolic axis')
+    if d < -x.ndim or d >= x.ndim:
+        raise Raised('IndexError', 'Dimension out of range')
+    return d % x.ndim
+
+
+def _m_unsqueeze(it, x, d):
+    if not is_conc(d):
+        raise Unsupported('symbolic axis')
+    d = d % (x.ndim + 1)
+    key = [slice(None)] * x.ndim
+    key.insert(d, None)
+    return tget(x, tuple(key))
+
+
+def _m_squeeze(it, x, d=None):
+    ds = [k for k in range(x.ndim) if is_conc(x.shape[k]) and x.shape[k] == 1] if d is None else [_dims(x, d)]
+    if d is None and any(not is_conc(n) for n in x.shape) and any(ctx().possible(I(n) == 1) for n in x.shape if not is_conc(n)):
+        raise Unsupported('squeeze() of a tensor with symbolic extents that may be 1')
+    key = []
+    for k in range(x.ndim):
+        if k in ds:
+            if is_conc(x.shape[k]):
+                key.append(0 if x.shape[k] == 1 else slice(None))
+            elif ctx().decide(I(x.shape[k]) == 1):
+                key.append(0)
+            else:
+                key.append(slice(None))
+        else:
+            key.append(slice(None))
+    return tget(x, tuple(key))
+
+
+def t_flip(x, dims):
+    if is_conc(dims):
+        dims = [dims]
+    dims = [_dims(x, d) for d in dims]
+    xs = x.snap()
+    shp = x.shape
+
+    def elem(idx):
+        j = list(idx)
+        for d in dims:
+            j[d] = simp(I(shp[d]) - 1 - I(idx[d]))
+        return xs(j)
+    return fresh_like(shp, elem, x)          # torch.flip returns a copy
+
+
+def t_roll(x, shifts, dims=None):
+    if dims is None:
+        raise Unsupported('torch.roll without dims')
+    if not isinstance(dims, (list, tuple)):
+        dims, shifts = [dims], [shifts]
+    xs = x.snap()
+    shp = x.shape
+    norm = []
+    for s_, d in zip(shifts, dims):
+        d = _dims(x, d)
+        n = shp[d]
+        c = ctx()
+        if is_conc(s_) and is_conc(n):
+            s_ = s_ % n if n else 0
+        elif c.decide(z3.And(I(s_) >= 0, I(s_) <= I(n))):
+            pass
+        elif c.decide(z3.And(I(s_) < 0, I(s_) >= -I(n))):
+            s_ = simp(I(s_) + I(n))
+        else:
+            raise Unsupported('roll by more than the extent')
+        norm.append((d, s_, n))
+
+    def elem(idx):
+        j = list(idx)
+        for d, s_, n in norm:
+            j[d] = simp(z3.If(I(idx[d]) - I(s_) >= 0, I(idx[d]) - I(s_), I(idx[d]) - I(s_) + I(n)))
+        return xs(j)
+    return fresh_like(shp, elem, x)
+
+
+def t_chunk(x, chunks, dim=0):
+    d = _dims(x, dim)
+    n = x.shape[d]
+    if not is_conc(chunks) or chunks < 1:
+        raise Unsupported('chunk count')
+    size = simp((I(n) + chunks - 1) / chunks)
+    if not ctx().entails(I(size) * chunks == I(n)):
+        raise Unsupported('chunk of an extent not known to be divisible')
+    out = []
+    for k in range(chunks):
+        key = [slice(None)] * x.ndim
+        key[d] = slice(simp(k * I(size)), simp((k + 1) * I(size)))
+        out.append(tget(x, tuple(key)))
+    return tuple(out)
+
+
+def t_split(x, size, dim=0):
+    d = _dims(x, dim)
+    n = x.shape[d]
+    if isinstance(size, (list, tuple)):
+        out, a = [], 0
+        for sz in size:
+            key = [slice(None)] * x.ndim
+            key[d] = slice(a, simp(I(a) + I(sz)))
+            out.append(tget(x, tuple(key)))
+            a = simp(I(a) + I(sz))
+        ctx().require('split-sizes', I(a) == I(n))
+        return tuple(out)
+    if is_conc(n) and is_conc(size):
+        return t_split(x, [min(size, n - a) for a in range(0, n, size)], dim)
+    k = ctx().forced_value(simp(I(n) / I(size))) if ctx().entails(I(n) % I(size) == 0) else None
+    if k is None:
+        raise Unsupported('split with a symbolic number of pieces')
+    return t_split(x, [size] * k, dim)
+
+
+def _m_narrow(it, x, dim, start, length):
+    d = _dims(x, dim)
+    key = [slice(None)] * x.ndim
+    key[d] = slice(start, simp(I(start) + I(length)))
+    ctx().require('narrow-in-bounds', z3.And(I(start) >= 0, I(length) >= 0, I(start) + I(length) <= I(x.shape[d])))
+    return tget(x, tuple(key))
+
+
+def _m_flatten(it, x, start_dim=0, end_dim=-1):
+    a, b = _dims(x, start_dim), _dims(x, end_dim)
+    shape = list(x.shape[:a]) + [-1] + list(x.shape[b + 1:])
+    return t_reshape(x, *shape)
+
+
+def _m_expand(it, x, *sizes):
+    if len(sizes) == 1 and isinstance(sizes[0], (list, tuple)):
+        sizes = tuple(sizes[0])
+    if len(sizes) < x.ndim:
+        raise Raised('RuntimeError', 'expand: fewer sizes than dimensions')
+    lead = len(sizes) - x.ndim
+    shape, src = [], []
+    for k, sz in enumerate(sizes):
+        if k < lead:
+            shape.append(sz)
+            src.append(None)
+            continue
+        n = x.shape[k - lead]
+        if is_conc(sz) and sz == -1:
+            shape.append(n)
+            src.append('same')
+        elif ctx().entails(I(sz) == I(n)):
+            shape.append(n)
+            src.append('same')
+        elif is_conc(n) and n == 1:
+            shape.append(sz)
+            src.append('zero')
+        else:
+            raise Raised('RuntimeError', 'expand: incompatible size')
+    xs = x.snap()
+
+    def elem(idx):
+        j = []
+        for k, how in enumerate(src):
+            if how == 'same':
+                j.append(idx[k])
+            elif how == 'zero':
+                j.append(0)
+        return xs(j)
+    t = fresh_like(shape, elem, x)
+    t.base.may_alias.append(x.base)          # a view of x: writes through it are writes to x
+    t.meta['contig'] = False
+    return t
+
+
+def _m_to(it, x, *a, **kw):
+    dt = kw.get('dtype')
+    for q in a:
+        if isinstance(q, DType):
+            dt = q
+        elif isinstance(q, STensor):
+            dt = q.meta.get('dtype', DT_IN)
+    if dt is None:
+        return x                      # device moves only
+    t = fresh_like(x.shape, x.snap(), x)
+    t.meta['dtype'] = dt
+    return t
+
+
+def _const_tensor(val):
+    def f(*shape, dtype=None, device=None, requires_grad=False):
+        if len(shape) == 1 and isinstance(shape[0], (list, tuple)):
+            shape = tuple(shape[0])
+        v = Fr(val)
+        return STensor(tuple(shape), lambda idx: lift(v), meta={'kind': 'torch', 'dtype': dtype if dtype is not None else DT_DEFAULT, 'contig': True})
+    return f
+
+
+def _const_like(val):
+    def f(x, dtype=None, **kw):
+        v = Fr(val)
+        return STensor(x.shape, lambda idx: lift(v), meta={'kind': 'torch', 'dtype': dtype if dtype is not None else x.meta.get('dtype', DT_IN), 'contig': True})
+    return f
+
+
+def _torch_full(shape, fill, dtype=None, device=None, requires_grad=False):
+    v = Fr(fill) if is_conc(fill) or isinstance(fill, float) else fill
+    return STensor(tuple(shape), lambda idx: lift(v), meta={'kind': 'torch', 'dtype': dtype if dtype is not None else DT_DEFAULT, 'contig': True})
+
+
 TMETH = {
+    'permute': lambda it, x, *p: t_permute(x, [q % x.ndim for q in (p[0] if len(p) == 1 and isinstance(p[0], (list, tuple)) else p)]),
+    'unsqueeze': _m_unsqueeze, 'squeeze': _m_squeeze,
+    'flip': lambda it, x, *d: t_flip(x, d[0] if len(d) == 1 else list(d)),
+    'roll': lambda it, x, shifts, dims=None: t_roll(x, shifts, dims),
+    'chunk': lambda it, x, chunks, dim=0: t_chunk(x, chunks, dim),
+    'split': lambda it, x, size, dim=0: t_split(x, size, dim),
+    'narrow': _m_narrow, 'flatten': _m_flatten, 'expand': _m_expand,
+    'expand_as': lambda it, x, o: _m_expand(it, x, *o.shape),
+    'to': _m_to, 'type_as': lambda it, x, o: _m_to(it, x, o), 'type': lambda it, x, dt=None: _m_to(it, x, dtype=dt) if dt is not None else x.meta.get('dtype', DT_IN),
+    'cpu': lambda it, x: x, 'cuda': lambda it, x, *a: x,
+    'neg': lambda it, x: t_bin('*', x, -1),
+    'add': lambda it, x, o: t_bin('+', x, o), 'sub': lambda it, x, o: t_bin('-', x, o),
+    'mul': lambda it, x, o: t_bin('*', x, o), 'div': lambda it, x, o: t_bin('/', x, o),
+    'new_ones': lambda it, x, shape, **kw: STensor(tuple(shape) if isinstance(shape, (list, tuple)) else (shape,), lambda idx: lift(Fr(1)),
+                                                   meta={'kind': 'torch', 'dtype': x.meta.get('dtype', DT_IN), 'contig': True}),
     'numel': lambda it, x: x.numel(),
     'reshape': _m_reshape,
     'view': _m_view,
@@ -251,7 +471,7 @@ def t_pow(a, b):
 def inplace_write(it, cur, res):
     """x op= v  on a tensor name: writes x's storage"""
     if cur.imap is not None:
-        raise Unsupported('in-place op on a view')
+        return tset(cur, tuple([slice(None)] * cur.ndim), res)       # writes through a structured view
     rs = res.snap()
     ctx().effects.append(('write', cur.base, 'inplace-op'))
     cur.base.elem = rs
@@ -533,6 +753,15 @@ def setup_namespaces():
         'float': F32, 'double': F64, 'float32': F32, 'float64': F64,
         'get_default_dtype': lambda: DT_DEFAULT,
         'sqrt': _torch_sqrt, 'abs': _unary_unsupported('torch.abs'),
+        'flip': lambda x, dims: t_flip(x, dims), 'roll': lambda x, shifts, dims=None: t_roll(x, shifts, dims),
+        'chunk': lambda x, chunks, dim=0: t_chunk(x, chunks, dim), 'split': lambda x, size, dim=0: t_split(x, size, dim),
+        'transpose': lambda x, a, b: t_transpose(x, a, b), 'permute': lambda x, p: t_permute(x, [q % x.ndim for q in p]),
+        'unsqueeze': lambda x, d: _m_unsqueeze(None, x, d), 'squeeze': lambda x, d=None: _m_squeeze(None, x, d),
+        'flatten': lambda x, a=0, b=-1: _m_flatten(None, x, a, b), 'narrow': lambda x, d, a, n: _m_narrow(None, x, d, a, n),
+        'ones': _const_tensor(1), 'ones_like': _const_like(1), 'full': _torch_full,
+        'add': lambda a, b: t_bin('+', a, b), 'sub': lambda a, b: t_bin('-', a, b), 'mul': lambda a, b: t_bin('*', a, b),
+        'div': lambda a, b: t_bin('/', a, b), 'neg': lambda a: t_bin('*', a, -1),
+        'is_tensor': lambda v: isinstance(v, STensor),
         'autograd': NS('torch.autograd', {'Function': __import__('cbv.interp', fromlist=['x']).TY_FUNCTION}),
     })
     TORCH_NS.d['nn'] = NS('torch.nn', {'Parameter': lambda t, requires_grad=True: t.with_meta(param=True),
@@ -715,6 +944,40 @@ def _minmax(is_min):
     return f
 
 
+def _truth(v):
+    if isinstance(v, (z3.BoolRef, z3.ArithRef)):
+        return ctx().decide(v if isinstance(v, z3.BoolRef) else I(v) != 0)
+    if isinstance(v, STensor):
+        raise Unsupported('truth value of a tensor')
+    return bool(v)
+
+
+def _anyall(is_any):
+    def f(xs):
+        for v in xs:
+            t = _truth(v)
+            if t == is_any:
+                return is_any
+        return not is_any
+    return f
+
+
+def _sum(it):
+    def f(xs, start=0):
+        acc = start
+        for v in xs:
+            acc = it.binop('+', acc, v)
+        return acc
+    return f
+
+
+def _sorted(xs, **kw):
+    xs = list(xs)
+    if kw or not all(is_conc(v) for v in xs):
+        raise Unsupported('sorted() of symbolic values')
+    return sorted(xs)
+
+
 def _abs(v):
     if isinstance(v, z3.ArithRef):
         return v if ctx().decide(I(v) >= 0) else -v
@@ -726,7 +989,11 @@ def builtins(it):
     b = {'isinstance': _isinstance(it), 'len': _len, 'tuple': _tuple, 'list': _list, 'range': _range,
          'zip': lambda *a: list(zip(*a)), 'dict': _dict, 'int': lambda v: v, 'float': lambda v: v,
          'str': str, 'max': _minmax(False), 'min': _minmax(True), 'abs': _abs, 'print': lambda *a, **k: None,
-         'True': True, 'False': False, 'None': None}
+         'True': True, 'False': False, 'None': None,
+         'enumerate': lambda xs, start=0: [(start + k, v) for k, v in enumerate(_list(xs) if not isinstance(xs, (list, tuple)) else xs)],
+         'reversed': lambda xs: list(reversed(_list(xs) if not isinstance(xs, (list, tuple)) else list(xs))),
+         'sum': _sum(it), 'any': _anyall(True), 'all': _anyall(False), 'bool': _truth,
+         'divmod': lambda a, b: (it.binop('//', a, b), it.binop('%', a, b)), 'sorted': _sorted, 'round': round}
     for e in ('ValueError', 'NotImplementedError', 'ImportError', 'KeyError', 'IOError', 'TypeError',
               'AssertionError', 'RuntimeError', 'IndexError', 'Exception', 'AttributeError'):
         b[e] = ExcTok(e)
